@@ -149,8 +149,10 @@ J gen_tunnel(uint64_t seed, const J &ov)
 		// (never both: with -O and -m forced the client tests nothing at all, and nothing is promised)
 		if (r.chance(0.25)) { static const char *de[] = {"base32", "base64", "base64u", "base128", "raw"}; c.set("downenc", de[r.range(0, 4)]); }
 		else if (r.chance(0.15)) c.set("fragsize", (int)r.range(50, 100));     // a size every type, codec and 512-byte limit can carry
+		if (ov.has("downenc")) { c.set("downenc", ov.gets("downenc")); c.set("fragsize", 0); }     // ad-hoc sweeps: one forced codec in every run
 		if (r.chance(0.6)) c.set("qtype", "");
 		else if (c.gets("qtype").empty()) c.set("qtype", TYPES[r.range(0, 6)]);
+		if (ov.has("qtype")) c.set("qtype", ov.gets("qtype"));
 		c.set("lat_up_us", (long long)r.range(100, 5000)); c.set("lat_dn_us", (long long)r.range(100, 5000));
 		if (r.chance(0.3)) { long long l = r.range(10000, 120000); c.set("lat_up_us", l + r.range(0, 5000)); c.set("lat_dn_us", l + r.range(0, 5000)); }    // a path as long as real ones: 20-250 ms round trip
 	}
@@ -351,7 +353,7 @@ J gen_tunnel(uint64_t seed, const J &ov)
 		// C11: full autodetection (type forced in some runs) through a relay with a fixed transformation; otherwise lossless
 		double W = 8 + r.uniform() * 15;
 		J rl = gen_relay(r);
-		if (ov.has("relay_case_q")) rl.set("case_q", ov.gets("relay_case_q"));
+		for (auto &kv : ov.o) if (kv.first.rfind("relay_", 0) == 0) rl.set(kv.first.substr(6), kv.second);     // ad-hoc sweeps: relay_<factor>=<level>
 		cfg.set("relay", rl);
 		{
 			// forced -O together with forced -m only where the path garbles the server's confirmation of that codec visibly
